@@ -271,7 +271,14 @@ func checkRender(c renderCase, o *kit.Obs) error {
 			o.Label("ray:miss")
 		}
 		if borderline > 0 {
-			o.Label("ray:borderline-leaf")
+			if strict {
+				o.Label("ray:borderline-leaf:strict")
+			} else {
+				o.Label("ray:borderline-leaf:generic")
+			}
+			if !found || ic.Scale > minAll {
+				o.Label("ray:borderline-hit-skipped-by-index")
+			}
 		}
 		if evals < n {
 			o.Label("ray:pruned(measured)")
